@@ -72,7 +72,7 @@ Section Parser.
   (* ---- wrappers ---- *)
   Lemma enc_ok s ml off :
     Base s -> CInv s -> c_ip s <= mflimit -> match_ok vrd lo (c_ip s) off ml -> c_ip s + ml <= matchlimit ->
-    TB (c_tabs s) (iend + 1) ->
+    TB (c_tabs s) iend ->
     match c_encode vrd lim s0 srcSize s ml off oes with
     | inl s' => Base s' /\ CInv s' /\ c_ip s' = c_ip s + ml /\ c_anchor s' = c_ip s + ml /\ c_tabs s' = c_tabs s
     | inr r => ROK r
@@ -93,7 +93,7 @@ Section Parser.
     - split; assumption.
   Qed.
 
-  Lemma ll_ok s : Base s -> CInv s -> TB (c_tabs s) (iend + 1) ->
+  Lemma ll_ok s : Base s -> CInv s -> TB (c_tabs s) iend ->
     ROK (c_last_literals vrd lim s0 srcSize s maxOut).
   Proof.
     intros (B1 & B2 & B3 & B4 & B5) HC HT. split.
@@ -264,15 +264,15 @@ Section Parser.
       destruct (hm_len m <? 4) eqn:E4; unfold step_post.
       + split; [|unfold mu, with_ip; cbn [c_ip]; lia].
         split; [apply Base_with_ip; [exact HB | cbn [with_tabs c_anchor]; lia]|].
-        split; [exact HC|]. cbn [with_ip with_tabs c_tabs c_ip]. eapply TB_mono; eauto. lia.
+        split; [exact HC|]. cbn [with_ip with_tabs c_tabs c_ip]. eapply TB_mono; eauto; lia.
       + destruct (Hv ltac:(lia)) as (V1 & V2 & V3 & V4 & V5).
         assert (Hb0 : hm_back m = 0) by lia. rewrite Hb0, Z.add_0_r in *.
         assert (Hmv : mv (c_ip s) m) by (split; assumption).
         split; [|unfold mu, with_tabs; cbn [c_ip]; lia].
         split; [exact HB|]. split; [exact HC|]. cbn [with_tabs c_ip c_anchor c_tabs].
         split; [lia|]. split; [exact Hmv|]. split; [lia|]. split; [lia|]. split; [lia|]. split; [exact Hmv|].
-        split; [right; split; reflexivity|]. eapply TB_mono; eauto. lia.
-    - unfold step_post. rewrite oes_restore. apply ll_ok; [exact HB | exact HC|]. eapply TB_mono; eauto. lia.
+        split; [right; split; reflexivity|]. eapply TB_mono; eauto; lia.
+    - unfold step_post. rewrite oes_restore. apply ll_ok; [exact HB | exact HC|]. eapply TB_mono; eauto; lia.
   Qed.
 
   Lemma search2_step_ok start0 m0 m1 s : PInv (PSearch2 start0 m0 m1) s ->
@@ -292,7 +292,7 @@ Section Parser.
       destruct (c_encode vrd lim s0 srcSize (with_tabs s t') (hm_len m1) (hm_off m1) oes) as [s'|r]; [|exact HE].
       destruct HE as (E1 & E2 & E3 & E4 & E5). cbn [with_tabs c_ip c_tabs] in *.
       unfold step_post. split; [|unfold mu; lia].
-      split; [exact E1|]. split; [exact E2|]. rewrite E5, E3. eapply TB_mono; eauto. lia.
+      split; [exact E1|]. split; [exact E2|]. rewrite E5, E3. eapply TB_mono; eauto; lia.
     - destruct Hcase as [Hle|(Hgt & Hmf & Hm2 & Hst & Hend)]; [lia|].
       pose proof (mv_len _ _ Hm2) as H24. destruct Hm2 as (Hm2a & Hm2b).
       assert (Hm2 : mv start2 m2) by (split; assumption).
@@ -304,7 +304,7 @@ Section Parser.
         split; [exact HC|]. cbn [with_ip with_tabs c_ip c_anchor c_tabs].
         split; [lia|]. split; [exact Hm2|]. split; [lia|]. split; [lia|]. split; [lia|]. split; [exact Hm0|].
         split; [left; destruct He as [He|(He1 & He2)]; [exact He | subst m0; lia]|].
-        eapply TB_mono; eauto. lia. }
+        eapply TB_mono; eauto; lia. }
       unfold s2_restore.
       destruct ((start0 <? c_ip s) && (start2 <? c_ip s + hm_len m0)) eqn:Er.
       + (* restore the initial match *)
@@ -314,13 +314,13 @@ Section Parser.
         split; [apply Base_with_ip; [exact HB | cbn [with_tabs c_anchor]; lia]|].
         split; [exact HC|]. cbn [with_ip with_tabs c_ip c_anchor c_tabs].
         split; [exact Hm0|]. split; [exact He'|]. split; [exact Hm2|]. split; [lia|]. split; [lia|]. split; [lia|].
-        split; [lia|]. split; [lia|]. eapply TB_mono; eauto. lia.
+        split; [lia|]. split; [lia|]. eapply TB_mono; eauto; lia.
       + destruct (start2 - c_ip s <? 3) eqn:E3; [apply Skip; lia|].
         unfold step_post. split; [|unfold mu, with_ip; cbn [c_ip]; lia].
         split; [apply Base_with_ip; [exact HB | cbn [with_tabs c_anchor]; lia]|].
         split; [exact HC|]. cbn [with_ip with_tabs c_ip c_anchor c_tabs].
         split; [exact Hm1|]. split; [lia|]. split; [exact Hm2|]. split; [lia|]. split; [lia|]. split; [lia|].
-        split; [lia|]. split; [lia|]. eapply TB_mono; eauto. lia.
+        split; [lia|]. split; [lia|]. eapply TB_mono; eauto; lia.
   Qed.
 
   Lemma search3_step_ok start0 m0 m1 start2 m2 s : PInv (PSearch3 start0 m0 m1 start2 m2) s ->
@@ -339,7 +339,7 @@ Section Parser.
     destruct (search_next_spec (c_tabs s) a (hm_len m) 3 HTa ltac:(lia) ltac:(lia) ltac:(lia) ltac:(lia))
       as (start3 & m3 & t' & Hs & HT' & Hcase).
     rewrite Hs.
-    assert (HTe : TB t' (iend + 1)) by (eapply TB_mono; eauto; destruct Hma; lia).
+    assert (HTe : TB t' iend) by (eapply TB_mono; eauto; destruct Hma; lia).
     assert (Hmu : mu (PSearch3 start0 m0 m1 start2 m2) s = 2 * (iend - (a + hm_len m - 3)) + 1) by (unfold mu; lia).
     destruct (hm_len m3 <=? hm_len m) eqn:El.
     - (* No better match => encode ML1 and ML2 *)
@@ -433,7 +433,7 @@ Section Parser.
     { unfold HcChainCap.CInv. subst st. cbn [c_hw c_op c_anchor]. pose proof chw_nonneg.
       split; [lia|]. split; [lia|]. split; [intros; lia | intros; lia]. }
     destruct (srcSize <? LZ4_minLength) eqn:E.
-    - apply ll_ok; [exact HB | exact HC|]. subst st. cbn [c_tabs]. eapply TB_mono; eauto. lia.
+    - apply ll_ok; [exact HB | exact HC|]. subst st. cbn [c_tabs]. eapply TB_mono; eauto; lia.
     - apply hc_run_ok.
       + split; [exact HB|]. split; [exact HC|]. subst st. cbn [c_tabs c_ip]. exact HT.
       + unfold mu. subst st. cbn [c_ip]. lia.
